@@ -129,6 +129,8 @@ func faultMain(x *X) {
 			for j, q := range pa.Queriers {
 				if q.Closes != 1 {
 					x.Viol("C17", "querier-close-count", "querier-close-count|distributed", fmt.Sprintf("%s: querier %d of partition %d closed %d times", op.Q, j, i, q.Closes))
+				} else if o.ExecEnd > 0 && q.CloseStep > o.ExecEnd {
+					x.Viol("C17", "querier-closed-late", "querier-closed-late|distributed", fmt.Sprintf("%s: querier %d of partition %d closed at step %d, Exec returned at step %d", op.Q, j, i, q.CloseStep, o.ExecEnd))
 				}
 			}
 		}
